@@ -408,6 +408,20 @@ impl Drop for AllocPtr {
             }
             let size = self.size();
             ((*self.type_info).drop)(self.value());
+            #[cfg(feature = "verif")]
+            {
+                if crate::verif::QUARANTINE.load(std::sync::atomic::Ordering::Relaxed) {
+                    // Poison the value bytes and leak the block so that a dangling pointer reads
+                    // a recognisable pattern instead of recycled memory
+                    ptr::write_bytes(
+                        self.value() as *mut u8,
+                        crate::verif::POISON,
+                        self.value_size,
+                    );
+                    crate::verif::QUARANTINED.fetch_add(1, std::sync::atomic::Ordering::Relaxed);
+                    return;
+                }
+            }
             ptr::read(&*self.ptr);
             deallocate(self.ptr as *mut u8, size);
         }
@@ -1246,6 +1260,8 @@ impl Gc {
         let mut ptr = AllocPtr::new::<D::Value>(type_info, size);
         ptr.next = self.values.take();
         self.allocated_memory += ptr.size();
+        #[cfg(feature = "verif")]
+        crate::verif::note_allocated(self.allocated_memory);
         unsafe {
             let p: *mut D::Value = D::Value::make_ptr(&def, ptr.value());
             let ret: *const D::Value = &*def.initialize(WriteOnly::new(p));
@@ -1264,6 +1280,13 @@ impl Gc {
         R: Trace + CollectScope,
     {
         unsafe {
+            #[cfg(feature = "verif")]
+            {
+                if crate::verif::stress_tick() {
+                    self.collect(roots);
+                    return true;
+                }
+            }
             if self.allocated_memory >= self.collect_limit {
                 self.collect(roots);
                 true
@@ -1281,6 +1304,8 @@ impl Gc {
     {
         unsafe {
             info!("Start collect {:?}", self.generation);
+            #[cfg(feature = "verif")]
+            crate::verif::COLLECTIONS.fetch_add(1, std::sync::atomic::Ordering::Relaxed);
             roots.scope(self, |self_| {
                 roots.trace(self_);
                 self_.sweep();
@@ -1361,6 +1386,8 @@ impl Gc {
         if let Some(ref ptr) = header {
             self.allocated_memory -= ptr.size();
         }
+        #[cfg(feature = "verif")]
+        crate::verif::FREED.fetch_add(1, std::sync::atomic::Ordering::Relaxed);
         debug!("FREE: {:?}", header);
         drop(header);
     }
